@@ -656,3 +656,17 @@ Proof.
   rewrite E1 in H1. rewrite E2 in H2. rewrite E3. f_equal. apply I3.
   apply Qle_trans with (cq y); [apply I1 | apply I2]; congruence.
 Qed.
+
+(* ---------------------------------------------------------------- literal desugaring (parser.rs reduce_rational) *)
+Lemma lit_reduce_spec n d : 0 < d ->
+  reduce (Rat n d) = Val (lit_reduce n d) /\ canon (lit_reduce n d) /\
+  qval (lit_reduce n d) == inject_Z n / inject_Z d.
+Proof.
+  intros Hd.
+  assert (Hg : Z.gcd n d <> 0) by (intros E; apply Z.gcd_eq_0_r in E; lia).
+  assert (E : reduce (Rat n d) = Val (lit_reduce n d)).
+  { rewrite reduce_eq by lia. unfold lit_reduce. destruct (Z.eqb_spec (Z.gcd n d) 0); [contradiction |].
+    rewrite !Z.quot_div_exact by (auto using Z.gcd_divide_l, Z.gcd_divide_r).
+    replace (Z.sgn d) with 1 by lia. replace (Z.abs d) with d by lia. now replace (1 * n) with n by lia. }
+  split; [exact E |]. apply reduce_value; [lia | exact E].
+Qed.
